@@ -19,7 +19,7 @@ def term(r):
 
 
 def run(run, args):
-    n = 500 if run.tier == "quick" else 5000
+    n = (500 if run.tier == "quick" else 5000) * run.scale
     ok, log = build_harness()
     run.oblige("harness builds against /repo", ok, log[-400:] if not ok else "")
     if not ok:
